@@ -11,6 +11,20 @@ from harness import bootstrap  # noqa: F401
 
 from phonopy.structure.atoms import PhonopyAtoms
 
+ERRORS = []  # (route, repr(exception)): an exception of phonopy where success is expected - reported as violation
+
+
+def guarded(route):
+    """decorator-free helper: run fn(), record an exception of the code under test instead of propagating it"""
+    def run(fn, *a, **k):
+        try:
+            return fn(*a, **k)
+        except Exception as e:  # noqa: BLE001
+            ERRORS.append((route, "%s: %s" % (type(e).__name__, e)))
+            return None
+    return run
+
+
 RZ = np.array([[0, -1, 0], [1, 0, 0], [0, 0, 1]], dtype=float)
 P4_LATTICE = np.diag([4.0, 4.0, 5.0])
 P4_X0 = {1: np.array([0.125, 0.25, 0.125]), 2: np.array([0.375, 0.125, 0.5625])}
@@ -51,6 +65,17 @@ def born_events(rng, n, col=None):
     from phonopy.file_IO import get_BORN_lines, parse_BORN_from_strings
     events = []
     for it in range(n):
+        r = guarded("BORN")(_born_one, rng, it, col)
+        if r is not None:
+            events.append(r)
+    return events
+
+
+def _born_one(rng, it, col):
+    from phonopy import Phonopy
+    from phonopy.file_IO import get_BORN_lines, parse_BORN_from_strings
+    events = []
+    if True:
         order = ORDERS[it % len(ORDERS)]
         cell = p4_cell(order)
         T = rng.integers(-128, 129, size=(3, 3))
@@ -92,12 +117,21 @@ def born_events(rng, n, col=None):
                     col.add("BORN_row", list(borns[at - 1].ravel() + 0.0), lines[j + 2],  # (+0.0: the sign of a zero is the code's)
                             back=list(np.ravel(nac["born"][at - 1])),
                             origin="BORN")
-    return events
+    return events[0]
 
 
 # ----------------------------------------------------------------------------------------------
 def conv_events(rng, n):
     """type-1 datasets through get_displacements_and_forces, the FORCE_SETS route and Phonopy.displacements."""
+    out = []
+    for it in range(n):
+        r = guarded("conversion")(_conv_events, rng, 1, it)
+        if r:
+            out += r
+    return out
+
+
+def _conv_events(rng, n, it0):
     from phonopy import Phonopy
     from phonopy.file_IO import get_FORCE_SETS_lines, parse_FORCE_SETS_from_strings
     from phonopy.structure.dataset import get_displacements_and_forces
@@ -107,7 +141,7 @@ def conv_events(rng, n):
                         scaled_positions=[[0, 0, 0], [.5, .5, .25], [.25, .5, .75]])
     with contextlib.redirect_stdout(io.StringIO()):
         ph = Phonopy(cell, supercell_matrix=np.eye(3, dtype=int), primitive_matrix=None)
-    for it in range(n):
+    for it in range(it0, it0 + n):
         natom = 3
         nd = int(rng.integers(1, 4))
         dtab = [dyadic(rng, (3,), 0.03, bits=7) for _ in range(2)]
@@ -172,7 +206,9 @@ def hdf5_events(rng, tmpdir, n):
     opts = [(c, comp, u) for c in (False, True) for comp in (None, "gzip", "lzf") for u in ("eV/angstrom^2", "Ry/au^2", "hartree/au^2")]
     for it in range(n):
         c, comp, u = opts[it % len(opts)]
-        obs = hdf5_roundtrip(rng, tmpdir, c, comp, u)
+        obs = guarded("hdf5")(hdf5_roundtrip, rng, tmpdir, c, comp, u)
+        if obs is None:
+            obs = dict(fc=False, p2s=False, unit=False)
         events.append(dict(ek="hdf5", route="%s/%s/%s" % ("compact" if c else "full", comp, u),
                            x=dict(natom=1, first=[]), y=dict(disp=[], forces=[]), view=[], obs=obs))
     return events
